@@ -76,6 +76,19 @@ def _consts(fn: Fn, e) -> Optional[List[str]]:
         col = _loop_column(fn, e)
         if col is not None and all(isinstance(x, (str, type(None))) for x in col):
             return [x for x in col if isinstance(x, str)]
+        # prefix, code = TABLE[kind]: the column of a constant table the local is unpacked from (every binding)
+        from .facts import unpacked_table_values
+        acc, ok = set(), False
+        for n in walk_fn(fn.node):
+            if isinstance(n, ast.Assign) and any(isinstance(x, ast.Name) and x.id == e.id for t in n.targets for x in ast.walk(t)):
+                got = unpacked_table_values(fn, n, e.id)
+                if got is None:
+                    ok = False
+                    break
+                acc |= got
+                ok = True
+        if ok:
+            return sorted(acc)
     if isinstance(v, str):
         return [v]
     if isinstance(v, (tuple, list, set, frozenset)) and all(isinstance(x, (str, type(None))) for x in v):
